@@ -2,7 +2,7 @@
    Input: blocks
      begin <nthreads> <n_threads-of-the-barrier>
      call <t> wait
-     tick <t> <m|c> <label> <val|-> B <state> <n> <k> <stk top first ..>
+     tick <t> <m|c> <label> <val|-> B <state> <n> <k> <stk top first ..>      (Bp: only the first k entries of a longer stack)
      ret <t> <v>
      end
    Output: one line per block: "ok <events>" or "FAIL <line-in-block> <reason>". *)
@@ -25,6 +25,14 @@ let check_obs s obs =
       let (ml, ok) = stack_list s in
       let m = Printf.sprintf "state=%s n=%s stk=%s%s" (sz (bstate s)) (sz (nthr s)) (qstr ml) (if ok then "" else "(cyclic)") in
       let i = Printf.sprintf "state=%s n=%s stk=%s" st n q in
+      if i = m then None else Some ("barrier words differ: impl " ^ i ^ " model " ^ m)
+  | "Bp" :: st :: n :: k :: rest ->
+      (* the trace lists only the first k entries of a longer stack (case option snapmax): compare that prefix *)
+      let (q, _) = take (int_of_string k) rest in
+      let q = "[" ^ Stdlib.String.concat "," q ^ "]" in
+      let (ml, ended) = walk (nxt s) (ni (int_of_string k)) (top s) in
+      let m = Printf.sprintf "state=%s n=%s stk=%s%s" (sz (bstate s)) (sz (nthr s)) (qstr ml) (if ended then "(ends here)" else "...") in
+      let i = Printf.sprintf "state=%s n=%s stk=%s..." st n q in
       if i = m then None else Some ("barrier words differ: impl " ^ i ^ " model " ^ m)
   | "-" :: _ | [] -> None
   | _ -> Some "unparsable obs"
